@@ -9,6 +9,7 @@ import sympy
 
 from ..core import Exhausted
 from ..gen import circuits as GC
+from ..gen import custom_near as CN
 from ..gen import exponents as GE
 from ..gen import nonunitary as NU
 from ..ref import exactmat as EX
@@ -39,13 +40,23 @@ RULE = (
     "exact rational rotations and hermitian non-involutions, exponents up to 10**6 on float unitaries; 4 and 5 "
     "controls at once; in 'spelled' (every third case), 'bigpow' (every second) the chain is followed on the SAME gate "
     "object by the chain with one number changed to a neighbour (n +- 1, another q) and by the first chain again; the "
-    "replace_params cases also take spelled numbers and exact parameters (Fraction, sympy numbers, multiples of pi)"
+    "replace_params cases also take spelled numbers and exact parameters (Fraction, sympy numbers, multiples of pi); "
+    "plus class 'near_structured': custom gates (numeric definitions and parametrised definitions evaluated at tiny "
+    "parameters) whose matrices miss being hermitian / the identity / diagonal / real / an involution / symmetric / "
+    "unitary by 1e-13 .. 1e-6, under dagger / controlled / integer power chains holding at least one dagger; plus class "
+    "'spelled_entries': custom gates whose non-real entries are exact numbers not written with the imaginary unit "
+    "((-1)**(p/q), roots of negative numbers, acos(2), (-1)**t at an exact rational t) next to I, exp(I*pi*p/q), Python "
+    "complex and sympy Float spellings, as diagonal, phase-permutation and dense 2x2 matrices; class 'siblings' pushes "
+    "two different gates A, B, A through one chain in which a name-hiding wrapper (exp: every Exponential is called "
+    "'Exponential'; controlled: 'Control') is followed by one or two further modifiers of every kind"
 )
 ASSUMPTIONS = [
     "the base gate's own matrix is taken as given (C02); every modifier step is judged against a numpy/scipy "
     "reference applied to the matrix the library reported before the step",
     "a fractional power 1/q is judged by R^q = M (the root is not unique); the reference then continues from R",
-    "tolerance 1e-8 relative to the largest entry (sympy float linear algebra), 1e-6 for q-th powers of roots",
+    "tolerance 1e-8 relative to the largest entry (sympy float linear algebra), 1e-6 for q-th powers of roots; a "
+    "dagger / controlled step on a gate that holds no power / exp wrapper is entry-wise (conjugation, block placement: "
+    "nothing is recomputed) and is judged to 1e-13",
     "exceptions raised inside sympy's own matrix power / exponential are loud, not silently wrong: such "
     "steps are counted as out-of-domain, the chain is cut there",
     "an integer power with |e| > 3 of a matrix whose entries are Gaussian rationals is judged in exact arithmetic "
@@ -76,7 +87,7 @@ TOL = 1e-8
 
 def classes(tier):
     return ["builtin", "custom", "custom_structured", "nonunitary", "siblings", "symbolic", "replace", "k1_targets",
-            "spelled", "bigpow", "k7_targets", "pairs_exh"]
+            "spelled", "bigpow", "near_structured", "spelled_entries", "k7_targets", "pairs_exh"]
 
 
 # ----------------------------------------------------------------------------- reference
@@ -136,6 +147,31 @@ def _frac_q(e):
 def _is_int(e):
     v = _norm_exp(e)
     return v is not None and v.denominator == 1
+
+
+ENTRYWISE_TOL = 1e-13
+
+
+def _entrywise(gate):
+    """no Power / Exponential anywhere in the gate: its matrix is the base gate's closed form, conjugated / placed in
+    blocks entry by entry - no linear algebra is redone, so a dagger / controlled step on it is exact up to the
+    rounding of one evaluation (where a power or exp sits below, Power.dagger re-associates as wrapped.dagger.power(e)
+    and sympy's floating point linear algebra is run again: 1e-8 there)"""
+    from orquestra.quantum.circuits import _gates as G
+
+    g = gate
+    while True:
+        if isinstance(g, (G.Power, G.Exponential)):
+            return False
+        if isinstance(g, (G.ControlledGate, G.Dagger)):
+            g = g.wrapped_gate
+            continue
+        return isinstance(g, G.MatrixFactoryGate)
+
+
+def _step_tol(prev_gate, ref):
+    scale = max(1.0, float(np.abs(ref).max()) if ref.size else 1.0)
+    return (ENTRYWISE_TOL if _entrywise(prev_gate) else TOL) * scale
 
 
 def _has_neg_real_eig(M):
@@ -383,13 +419,15 @@ def judge_step(mon, kind, arg, prev_gate, M_prev, new_gate, where):
         return None
     if kind == "dagger":
         ref = L.adjoint(M_prev)
-        if L.maxdiff(got, ref) > _tol(ref):
+        if _entrywise(prev_gate):
+            mon.note("dagger-judged-entrywise")
+        if L.maxdiff(got, ref) > _step_tol(prev_gate, ref):
             known = K1 if _k1_applies(prev_gate, M_prev, got) else None
             mon.violation("dagger-matrix", f"({prev_gate}).dagger: max|M - adjoint| = {L.maxdiff(got, ref):.3e}", known=known)
             return got if known else None
     elif kind == "controlled":
         ref = L.controlled(M_prev, arg)
-        if L.maxdiff(got, ref) > _tol(ref):
+        if L.maxdiff(got, ref) > _step_tol(prev_gate, ref):
             mon.violation("controlled-matrix", f"({prev_gate}).controlled({arg}): max diff {L.maxdiff(got, ref):.3e}")
             return None
     elif kind == "exp":
@@ -843,12 +881,22 @@ def run_case(ctx):
             ga, gb = getattr(C, a)(ang), getattr(C, b)(ang)
             da, db = f"{a}({ang})", f"{b}({ang})"
         nq = ga.num_qubits
-        wrappers = [("controlled", rng.randint(1, 2))]
-        if nq == 1 and rng.random() < 0.7:
-            wrappers.append(("exp",))
-        if rng.random() < 0.4:
-            wrappers.insert(rng.randint(0, len(wrappers)), rng.choice([("dagger",), ("power_int", 2), ("power_int", -1)]))
-        chain = [m for i, m in enumerate(wrappers) if _may_append(wrappers[:i], m, nq, False)]
+        cheap = a in CHEAP and b in CHEAP
+        # the inner wrapper HIDES the base gate from every name-level view ("Exponential", "Control"); around it, every
+        # kind of modifier as a further step: the outer step must still see which gate is inside
+        hiders = [("controlled", 1), ("controlled", rng.randint(1, 2))]
+        if nq == 1 and a not in NO_EXP and b not in NO_EXP:
+            hiders += [("exp",), ("exp",), ("exp",)]
+        pre = rng.choice([[], [], [], [("dagger",)], [("power_int", 2)], [("power_int", -1)]])
+        posts = [("dagger",), ("controlled", 1), ("power_int", 2), ("power_int", 3), ("power_int", -1), ("power_int", -2),
+                 ("power_frac", 1 / 2), ("power_frac", 1 / 3)]
+        wrappers = pre + [rng.choice(hiders)] + [rng.choice(posts) for _ in range(rng.choice([1, 1, 2]))]
+        chain = []
+        for m in wrappers:
+            if m[0] == "controlled" and nq + sum(x[1] for x in chain if x[0] == "controlled") + m[1] > max_width:
+                continue
+            if _may_append(chain, m, nq, cheap):
+                chain.append(m)
         ctx.describe(f"siblings {da} | {db} | {da} through .{_chain_str(chain)}", len(chain) >= 2)
         for g, d in ((ga, da), (gb, db), (ga, da)):
             _run_chain(ctx, g, d, chain)
@@ -1022,6 +1070,36 @@ def run_case(ctx):
                 if not _sympy_internal(e):
                     raise
         ctx.check("replace-params", ok, detail)
+        return
+    if cls == "near_structured":
+        # custom gates whose matrices MISS being hermitian / the identity / diagonal / real / an involution by
+        # 1e-13 .. 1e-6 (rv.gen.custom_near): a structure test with a tolerance answers for the neighbour
+        nq = rng.choice([1, 1, 1, 2])
+        flavor = CN.NEAR_FLAVORS[ctx.index % len(CN.NEAR_FLAVORS)] if rng.random() < 0.8 else None
+        g, d, info = CN.near_structured_gate(rng, nprng, nq, f"Near{ctx.index}", flavor)
+        chain = _rand_chain(rng, nq, max_width, max_len, ["dagger", "controlled", "power_int"], dense=True,
+                            focus=(("dagger", rng.choice(["dagger", "controlled", "power_int"])) if rng.random() < 0.5 else None))
+        if not any(m[0] == "dagger" for m in chain):
+            chain.insert(rng.randint(0, len(chain)), ("dagger",))
+        ctx.describe(f"{d} {nq}q#{ctx.index}.{_chain_str(chain)}", True)
+        ctx.mon.note("near-flavor:" + info["flavor"])
+        ctx.mon.note("near-route:" + info["route"])
+        ctx.mon.note(f"near-eps:{info['eps']:g}")
+        _run_chain(ctx, g, d, chain)
+        return
+    if cls == "spelled_entries":
+        # custom gates whose non-real entries are exact numbers written without the imaginary unit ((-1)**(1/4), roots
+        # of negative numbers, (-1)**t at a rational t) next to the usual spellings
+        nq = rng.choice([1, 1, 2])
+        g, d, info = CN.spelled_entries_gate(rng, nq, f"Sp{ctx.index}")
+        chain = _rand_chain(rng, nq, max_width, max_len, ["dagger", "controlled", "power_int"], dense=(info["flavor"] == "dense1q"),
+                            focus=(("dagger", rng.choice(["dagger", "controlled", "power_int"])) if rng.random() < 0.5 else None))
+        chain = [("power_int", abs(m[1])) if m[0] == "power_int" else m for m in chain]  # exact inverses of radicals are slow
+        if not any(m[0] == "dagger" for m in chain):
+            chain.insert(rng.randint(0, len(chain)), ("dagger",))
+        ctx.describe(f"{d} {nq}q#{ctx.index}.{_chain_str(chain)}", True)
+        ctx.mon.note("spelled-entries-flavor:" + info["flavor"])
+        _run_chain(ctx, g, d, chain)
         return
     if cls == "k1_targets":
         # keep the known finding observed and check its classifier stays narrow
